@@ -1,5 +1,6 @@
 import Femio.Driver.Proto
 import Femio.Model.NpyDir
+import Femio.Model.NpyKeys
 /-! driver commands for C05 (stateless)
 
 ```
@@ -57,3 +58,32 @@ def handle : List String → Option String
   | _ => none
 
 end Femio.C05
+
+/-! key scheme (`Model/NpyKeys.lean`)
+
+```
+c05k.todict list(<name> list(<type>))          -> ok list(key)       keys of ecollToDict (elemental collection)
+c05k.ntodict list(<name>)                      -> ok list(key)       keys of collToDict (nodal collection)
+c05k.split <typeByComponent> list(key) <type>  -> ok list(key)       entriesOfType
+c05k.kind <kindBySuffix> <key>                 -> ok i | d | x
+``` -/
+namespace Femio.C05K
+open Femio.Proto
+
+def handle : List String → Option String
+  | "c05k.todict" :: rest => do
+    let c ← run (listOf (do let n ← str; let ts ← listOf str; pure (n, ts))) rest
+    let coll : List (Str × EAttr) := c.map fun (n, ts) => (n, ts.map fun t => (t, (⟨0, 0⟩ : Attr)))
+    some ("ok " ++ showList (fun (e : Str × Nat) => escape e.1) (ecollToDict coll))
+  | "c05k.ntodict" :: rest => do
+    let c ← run (listOf str) rest
+    some ("ok " ++ showList (fun (e : Str × Nat) => escape e.1) (collToDict (c.map fun n => (n, (⟨0, 0⟩ : Attr)))))
+  | "c05k.split" :: rest => do
+    let (b, ks, t) ← run (do let b ← bool; let ks ← listOf str; let t ← str; pure (b, ks, t)) rest
+    some ("ok " ++ showList (fun (e : Str × Nat) => escape e.1) (entriesOfType ⟨b, true⟩ (ks.map fun k => (k, 0)) t))
+  | "c05k.kind" :: rest => do
+    let (b, k) ← run (do let b ← bool; let k ← str; pure (b, k)) rest
+    some ("ok " ++ (if isIdsKey ⟨true, b⟩ k then "i" else if isDataKey ⟨true, b⟩ k then "d" else "x"))
+  | _ => none
+
+end Femio.C05K
